@@ -47,7 +47,7 @@ def run(chk, args):
     mc = vlib.run_tlc("MCStore", "mc.cfg", workers=8, timeout=2400, files=[("mc.cfg", MC_CFG % (3, 4))], tag="C03mc")
     vlib.tlc_must_pass(mc, "MCStore")
     chk.add_tlc(mc, "MCStore MaxTx=3 MaxGen=4")
-    runs = 25 if thorough else 7  # the last one is the directed stale-suffix workload
+    runs = 13 if thorough else 7  # the last one is the directed stale-suffix workload
     tf = os.path.join(wd, "trace.ndjson")
     dd = os.path.join(wd, "d")
     os.makedirs(dd)
@@ -55,7 +55,7 @@ def run(chk, args):
     if thorough:
         hargs.append("-thorough")
     t0 = time.time()
-    out, _ = vlib.run_harness(binp, hargs, timeout=3000)
+    out, _ = vlib.run_harness(binp, hargs, timeout=6000)
     vlib.log("[C03] free-running workloads + crash images: %.0fs" % (time.time() - t0))
     r = json.loads(out)
     segs = split_segments(open(tf).readlines())
@@ -115,7 +115,7 @@ def run(chk, args):
                        "power0 (only fsynced content), power1 (all but the last un-fsynced write per file), powerR (random per-file prefix, torn last write), powerF (per file all or none of the un-fsynced writes); "
                        "quick: kill + one power mode per point; thorough: all five; distinct = images")
     chk.assumptions += ["power-loss model: per-file prefix of un-fsynced writes + torn last write; no reordering inside a file; created/removed files durable once the "
-                        "directory was synced (what the code assumes)", "repeated crashes: a sample of first-level images (6 per workload quick / 30 thorough, preferring points with a precommitted backlog) is continued with three commits and "
+                        "directory was synced (what the code assumes)", "repeated crashes: a sample of first-level images (6 per workload quick / 16 thorough, preferring points with a precommitted backlog) is continued with three commits and "
                         "every crash point of that continuation, including the recovery run itself, is enumerated (kill and fsynced-only)"]
 
 
